@@ -178,6 +178,39 @@ pub fn zero_capacity() {
     std::mem::forget(world);
 }
 
+/// Public API only, no hooks, no pre-allocated logs: fill to capacity, destroy an arbitrary
+/// entity, refill; repeat. create_within_capacity succeeds exactly when len < capacity — also
+/// with the `events` feature and logs that were never cleared.
+pub fn refill_api<const N: usize>() {
+    use w1::*;
+    let mut world = W1::both(N, 0);
+    let mut hs = [None; N];
+    let mut i = 0;
+    while i < N {
+        let r = world.create_within_capacity::<ArchFoo>((CA(i as u8),));
+        assert!(r.is_ok(), "create_within_capacity refused although len < capacity");
+        hs[i] = r.ok();
+        i += 1;
+    }
+    assert!(world.create_within_capacity::<ArchFoo>((CA(9),)).is_err(), "create_within_capacity succeeded on a full archetype");
+    let mut round = 0;
+    while round < 2 {
+        let k = sym::any_usize();
+        sym::assume(k < N);
+        assert!(world.destroy(hs[k].unwrap()).is_some());
+        assert!(world.arch_foo.len() == N - 1 && world.arch_foo.capacity() == N);
+        let r = world.create_within_capacity::<ArchFoo>((CA(50 + round as u8),));
+        assert!(r.is_ok(), "a freed position could not be reused: create_within_capacity refused although len < capacity");
+        hs[k] = r.ok();
+        assert!(world.arch_foo.len() == N && world.arch_foo.capacity() == N);
+        round += 1;
+    }
+    assert!(world.create_within_capacity::<ArchFoo>((CA(9),)).is_err());
+    cover!(true, "two destroy/refill rounds");
+    std::mem::forget(world);
+}
+
+harness! { fn c12_refill_api_2() unwind(5) { refill_api::<2>() } }
 harness! { fn c12_within_foo_3() unwind(5) { bookkeeping_step::<w1::Foo, 3>(0) } }
 harness! { fn c12_within_foo_0() unwind(3) { bookkeeping_step::<w1::Foo, 0>(0) } }
 harness! { fn c12_within_tri_2() unwind(4) { bookkeeping_step::<w3::Tri, 2>(0) } }
